@@ -368,7 +368,20 @@ impl VariablesState {
                 _ => false,
             },
             ValueType::List(val) => match &default_val.value {
-                ValueType::List(default_val) => *val == *default_val,
+                // Lists are equal when their items are; empty lists also
+                // differ by the origins they remember.
+                ValueType::List(default_val) => {
+                    *val == *default_val
+                        && (!val.items.is_empty() || {
+                            let mut origins = val.get_origin_names();
+                            let mut default_origins = default_val.get_origin_names();
+                            origins.sort();
+                            origins.dedup();
+                            default_origins.sort();
+                            default_origins.dedup();
+                            origins == default_origins
+                        })
+                }
                 _ => false,
             },
             ValueType::String(val) => match &default_val.value {
